@@ -608,51 +608,69 @@ def _console_version_update(h, g):
 def _dispatch(h, g):
     """_process_*_status_message: every record goes, in order, to the entity with that id; unknown ids are skipped
     (last writer wins follows from the update contracts).  Record count enumerated 0..3."""
-    if not h.symbolic:
-        return
     G = GEN[g]
-    E = Env(h, g, "CONNECTED")
+    E = make_env(h, g, "CONNECTED")
     kind = h.choice("kind", ["acstatus", "timer", "zstatus", "err"])
     n = h.choice("records", [0, 1, 2, 3]) if kind != "err" else 1
-    ents = {0: Instance(h.get("pyairtouch.comms:UnsupportedMessage"), {"label": "e0"}),
-            2: Instance(h.get("pyairtouch.comms:UnsupportedMessage"), {"label": "e2"})}
     log = []
     target_attr = "_zones" if kind == "zstatus" else "_air_conditioners"
     method = {"acstatus": "update_ac_status", "timer": "update_ac_timer_status", "err": "update_ac_error_info",
               "zstatus": "update_group_status" if g == 4 else "update_zone_status"}[kind]
+    idf = {"acstatus": "ac_number", "timer": "ac_number", "err": "ac_number", "zstatus": "group_number" if g == 4 else "zone_number"}[kind]
+    if h.symbolic:
+        class Ent:
+            def __init__(self, key):
+                self.key = key
 
-    class Ent:
-        def __init__(self, key):
-            self.key = key
+            def py_truth(self, it):
+                return True
 
-        def py_truth(self, it):
-            return True
+            def py_getattr(self, it, name):
+                if name == method:
+                    def call(x):
+                        def run(it2):
+                            log.append((self.key, x))
+                            aio.suspend(it2, ("update",))
+                        return aio.Awaitable(method, run)
+                    return Builtin(method, call)
+                raise it.exc("AttributeError", name)
 
-        def py_getattr(self, it, name):
-            if name == method:
-                def call(x):
-                    def run(it2):
-                        log.append((self.key, x))
-                        aio.suspend(it2, ("update",))
-                    return aio.Awaitable(method, run)
-                return Builtin(method, call)
-            raise it.exc("AttributeError", name)
+        def record(i, ident):
+            return Instance(h.get("pyairtouch.comms:UnsupportedMessage"), {idf: ident, "error_info": "ER", "label": f"r{i}"})
+        ident_of = lambda rec: rec.attrs[idf]  # noqa: E731
+    else:
+        class Ent:
+            def __init__(self, key):
+                self.key = key
 
+            def __getattr__(self, name):
+                if name != method:
+                    raise AttributeError(name)
+
+                async def call(x):
+                    log.append((self.key, x))
+                return call
+
+        class Rec:
+            def __init__(self, i, ident):
+                setattr(self, idf, ident)
+                self.error_info = "ER"
+                self.label = f"r{i}"
+
+        def record(i, ident):
+            return Rec(i, ident)
+        ident_of = lambda rec: getattr(rec, idf)  # noqa: E731
     d = h.attr(E.at, target_attr)
     for k in (0, 2):
         d[k] = Ent(k)
-    idf = {"acstatus": "ac_number", "timer": "ac_number", "err": "ac_number", "zstatus": "group_number" if g == 4 else "zone_number"}[kind]
-    recs = []
-    for i in range(n):
-        ident = h.int(f"id{i}", 0, 3)
-        recs.append(Instance(h.get("pyairtouch.comms:UnsupportedMessage"), {idf: ident, "error_info": "ER", "label": f"r{i}"}))
+    recs = [record(i, h.int(f"id{i}", 0, 3)) for i in range(n)]
     pname = {"acstatus": "_process_ac_status_message", "timer": "_process_ac_timer_status_message", "zstatus": G["p_zstatus"],
              "err": "_process_ac_error_info_message"}[kind]
     r = h.method(E.at, pname, recs[0] if kind == "err" else recs)
     h.oblige("dispatch never raises", r.ok)
     exp = []
     for rec in recs:
-        ident = rec.attrs[idf]
+        ident = ident_of(rec)
         for k in (0, 2):
             if h.branch(ident == k):
                 exp.append((k, "ER" if kind == "err" else rec))
